@@ -33,6 +33,7 @@ import (
 	"verif/internal/corpus"
 	"verif/internal/ev"
 	"verif/internal/hbref"
+	"verif/internal/synthfont"
 	"verif/internal/textgen"
 )
 
@@ -59,6 +60,8 @@ type Case struct {
 	Features []Feat `json:"features"`
 	Cluster  int    `json:"cluster_level"` // 0 or 1 (monotone levels only)
 	Flags    int    `json:"flags"`         // 1 BOT, 2 EOT, 4 PRESERVE, 8 REMOVE default ignorables
+	// Synth: the font is generated from this record (internal/synthfont); Font is a name only
+	Synth *synthfont.Spec `json:"synth,omitempty"`
 }
 
 func (c *Case) runes() []rune {
@@ -97,18 +100,20 @@ func tag32(s string) uint32 { return binary.BigEndian.Uint32([]byte(s)) }
 // ---- fonts ----
 
 type fontEntry struct {
-	rel     string
-	index   int
-	face    *font.Face
-	hb      *hbref.Face // for triage only
-	syll  []*syllScript // syllabic scripts the font covers (syll_test.go)
-	units [][]rune      // pieces of the texts upstream's tests shape with this font
+	rel                      string
+	index                    int
+	face                     *font.Face
+	hb                       *hbref.Face     // for triage only
+	syll                     []*syllScript   // syllabic scripts the font covers (syll_test.go)
+	units                    [][]rune        // pieces of the texts upstream's tests shape with this font
+	synth                    *synthfont.Spec // generated font (synth_test.go)
+	synthDeletes, synthGrows bool
 	// the reference reads the cmap differently: it was given the port's mapping (see refFace)
 	refCmapOverridden bool
-	feats   []string
-	pool    []rune
-	scripts []string
-	traits  corpus.Traits
+	feats             []string
+	pool              []rune
+	scripts           []string
+	traits            corpus.Traits
 }
 
 var (
@@ -643,7 +648,7 @@ func TestRefVerifyWorker(t *testing.T) {
 		fmt.Println("REF_VERIFY_BADCASE")
 		return
 	}
-	fe, err := loadFont(c.Font, c.Index)
+	fe, err := caseFont(&c)
 	if err != nil || fe.refFace() == nil {
 		fmt.Println("REF_VERIFY_UNAVAILABLE")
 		return
@@ -730,6 +735,9 @@ func checkCase(t ev.TB, fe *fontEntry, c *Case, survey func(check string, f fail
 		}
 	}
 	labels = append(labels, syllLabels(text[itemStart:itemEnd])...)
+	if fe.synth != nil {
+		labels = append(labels, synthLabels(fe, graphemesReversed(s.props.Script, s.props.Direction))...)
+	}
 	n := len(whole)
 
 	fail := func(check string, pieces []G, cuts []int, format string, args ...any) {
@@ -1002,6 +1010,10 @@ func genWords(t *rapid.T, fe *fontEntry, maxLen int) []rune {
 var commonFeatures = []string{"kern", "liga", "frac", "smcp", "dlig", "calt", "clig", "onum", "sups", "numr", "dnom", "ccmp", "locl", "mark", "mkmk", "init", "rlig", "salt", "ss01", "aalt", "zero", "c2sc", "hlig", "curs", "rclt", "cswh"}
 
 func genCase(t *rapid.T, fonts []*fontEntry) (*fontEntry, *Case) {
+	// a solid stratum of generated fonts (synth_test.go): 1 case in 6
+	if rapid.IntRange(0, 5).Draw(t, "synthStratum") == 0 {
+		return genSynthCase(t)
+	}
 	fe := fonts[rapid.IntRange(0, len(fonts)-1).Draw(t, "font")]
 	c := &Case{Font: fe.rel, Index: fe.index}
 	opts := textgen.Opts{MaxLen: ev.Scale(32, 64), FontPool: fe.pool, Hostile: 4, NoInvalid: true}
@@ -1116,7 +1128,11 @@ func TestSurvey(t *testing.T) {
 		t.Skip("set C18_SURVEY")
 	}
 	requireReference()
-	fonts := pickFonts(100000)
+	synthOnly := os.Getenv("C18_SURVEY_SYNTH") != "" // generated fonts only (the shard's pool)
+	var fonts []*fontEntry
+	if !synthOnly {
+		fonts = pickFonts(100000)
+	}
 	f, err := os.Create(out)
 	if err != nil {
 		t.Fatal(err)
@@ -1125,7 +1141,13 @@ func TestSurvey(t *testing.T) {
 	enc := json.NewEncoder(f)
 	counts := map[string]int{}
 	rapid.Check(t, func(t *rapid.T) {
-		fe, c := genCase(t, fonts)
+		var fe *fontEntry
+		var c *Case
+		if synthOnly {
+			fe, c = genSynthCase(t)
+		} else {
+			fe, c = genCase(t, fonts)
+		}
 		checkCase(t, fe, c, func(check string, fl failure) {
 			counts[check+" / "+fl.Upstream]++
 			enc.Encode(map[string]any{"check": check, "failure": fl})
@@ -1154,7 +1176,7 @@ func TestReplay(t *testing.T) {
 		if err := json.Unmarshal(raw, &c); err != nil {
 			t.Fatalf("replay %s: %v", p, err)
 		}
-		fe, err := loadFont(c.Font, c.Index)
+		fe, err := caseFont(&c)
 		if err != nil {
 			t.Fatalf("replay %s: %v", p, err)
 		}
